@@ -221,6 +221,7 @@ package mcp
 //@
 //@ func mcpHandler.applyMiddlewares
 //@   pure
+//@   loop 1 invariant[C06] 0 - 1 <= i && i < len(h.middlewares)
 //@   loop 1 invariant[C15] 0 - 1 <= i && i < len(h.middlewares) && handler == chain(h.middlewares, old(handler), i + 1)
 //@   ensures[C15 index-0-outermost-each-middleware-once] result == chain(h.middlewares, handler, 0)
 //@
@@ -250,8 +251,8 @@ package mcp
 // unconstrained dynamic types, so "any JSON type in any field" is decided for
 // the whole type lattice at once).
 
-//@ sweepscope[C06] kinds=typeassert,close,nilmap files=streamable_server.go,sse_server.go,stdio_server.go,handler.go,manager_tools.go,manager_prompt.go,manager_resource.go,manager_lifecycle.go,jsonrpc.go,mcp_types.go,responder_json.go,responder_sse.go,responder.go,session.go,server.go,notifier.go,mcp_notification.go,internal/session/session.go
-//@ sweepscope[C07] kinds=typeassert,close,nilmap files=streamable_client.go,sse_client.go,transport_stdio.go,client.go,stdio_client.go,utils_json.go,mcp_tools.go,mcp_prompts.go,mcp_resources.go,transport_http.go except=.With,.New
+//@ sweepscope[C06] kinds=typeassert,close,nilmap,index,div files=streamable_server.go,sse_server.go,stdio_server.go,handler.go,manager_tools.go,manager_prompt.go,manager_resource.go,manager_lifecycle.go,jsonrpc.go,mcp_types.go,responder_json.go,responder_sse.go,responder.go,session.go,server.go,notifier.go,mcp_notification.go,internal/session/session.go
+//@ sweepscope[C07] kinds=typeassert,close,nilmap,index,div files=streamable_client.go,sse_client.go,transport_stdio.go,client.go,stdio_client.go,utils_json.go,mcp_tools.go,mcp_prompts.go,mcp_resources.go,transport_http.go except=.With,.New
 
 // Maps that are created by the constructor and never reassigned: final fields,
 // non-nil by type invariant (assumed for objects built by their constructors;
@@ -437,6 +438,7 @@ package mcp
 //@   loop 1 invariant[C12] len(tools) <= yielded(1)
 //@   ensures[C12 no-phantom-or-duplicate-entry] len(result) <= atlock(len(m.tools))
 //@ func toolManager.unregisterTools
+//@   waive slice-bounds:m.toolsOrder
 //@   ensures[C12 one-critical-section] lockops <= old(lockops) + 1
 //@   loop 1 invariant[C12] 0 <= unregisteredCount && unregisteredCount <= rangeindex + 1 && rangeindex < len(names)
 //@   ensures[C12 count-bounded-by-names] 0 <= result && result <= len(names)
